@@ -177,6 +177,55 @@ fn c11_bell_truncation_propagates() {
 }
 //@endif
 
+// ---------------------------------------------------------------- structure of bellerophon()
+static mut M_CALLS: usize = 0;
+static mut M_X: [(u64, i32); 2] = [(0, 0); 2];
+static mut M_Y: [(u64, i32); 2] = [(0, 0); 2];
+static mut M_R: [(u64, i32); 2] = [(0, 0); 2];
+fn rec_mul(x: &ExtendedFloat, y: &ExtendedFloat) -> ExtendedFloat {
+    let m: u64 = kani::any();
+    kani::assume(m >> 62 != 0);
+    let r = ExtendedFloat { mant: m, exp: x.exp + y.exp + 64 };
+    unsafe {
+        assert!(M_CALLS < 2, "at most two extended multiplications");
+        M_X[M_CALLS] = (x.mant, x.exp);
+        M_Y[M_CALLS] = (y.mant, y.exp);
+        M_R[M_CALLS] = (r.mant, r.exp);
+        M_CALLS += 1;
+    }
+    r
+}
+static mut S_ACC: bool = false;
+static mut S_EA_CALLS: u32 = 0;
+static mut S_EA_FP: (u64, i32) = (0, 0);
+fn rec_error_is_accurate<F: Float>(_errors: u32, fp: &ExtendedFloat) -> bool {
+    unsafe {
+        S_EA_CALLS += 1;
+        S_EA_FP = (fp.mant, fp.exp);
+        S_ACC
+    }
+}
+
+macro_rules! bell_no_early_out {
+    ($name:ident, $t:ty, $qlo:expr) => {
+        /// No early zero / infinity where the value can be finite and non-zero: for ALL w != 0
+        /// and every decimal exponent q in [$qlo, 309] (w * 10^q >= 10^$qlo is far above the
+        /// smallest subnormal; 10^309 needs the estimate to become infinity through rounding)
+        /// the estimate is computed and put to error_is_accurate exactly once.
+        #[kani::proof]
+        #[kani::stub(mul, ghost_mul)]
+        #[kani::stub(error_is_accurate, ghost_error_is_accurate)]
+        fn $name() {
+            let num = Number { exponent: kani::any(), mantissa: kani::any(), many_digits: kani::any() };
+            kani::assume(num.mantissa != 0 && num.exponent >= $qlo && num.exponent <= 309);
+            let _ = bellerophon::<$t>(&num);
+            assert!(unsafe { EA_CALLS } == 1, "C11/C07 Bellerophon consults its estimate for every exponent that can give a finite non-zero value");
+        }
+    };
+}
+bell_no_early_out!(c11_bell_no_early_out_f64, f64, -280);
+bell_no_early_out!(c11_bell_no_early_out_f32, f32, -30);
+
 /// normalize: shifts out exactly the leading zeros, adjusts the exponent, reports the shift.
 #[kani::proof]
 fn c11_bell_normalize() {
